@@ -27,12 +27,12 @@ func gen(r *rand.Rand, tier string, i int) msgh.Input {
 		p.MaxOps = 80
 	}
 	switch x := r.IntN(20); {
-	case x == 0:
+	case x < 2:
 		p.Saturate = true
 		p.MinOps, p.MaxOps = 10, 24
-	case x < 4:
+	case x < 5:
 		p.Collide = 0.8
-	case x < 6:
+	case x < 7:
 		p.Collide = 0.2
 	}
 	in := msgh.GenHistory(r, p)
